@@ -12,7 +12,23 @@ import (
 
 // c14Doc draws a document for one step: small valid, mutated, deep, at/over the limit.
 func c14Doc(rt *rapid.T) []byte {
-	switch rapid.IntRange(0, 19).Draw(rt, "docclass") {
+	switch rapid.IntRange(0, 21).Draw(rt, "docclass") {
+	case 20, 21:
+		// mid-depth shapes (hundreds to thousands of levels): far below the limit, deeper than any
+		// freshly made stack; balanced, unbalanced, or cut off - with a warmed Buffer these
+		// take a different route through stack growth than without one
+		d := []int{130, 300, 1023, 1024, 1025, 1100, 2048, 3000, 4097, 5000, 8000, 9000}[rapid.IntRange(0, 11).Draw(rt, "middepth")]
+		cl := d
+		switch rapid.IntRange(0, 3).Draw(rt, "closing") {
+		case 0:
+			cl = 0
+		case 1:
+			cl = rapid.IntRange(0, d).Draw(rt, "close")
+		case 2:
+			cl = d - 1
+		}
+		return gen.NestSpec{Depth: d, Pattern: gen.NestPatterns[rapid.IntRange(0, len(gen.NestPatterns)-1).Draw(rt, "pat")], Close: cl,
+			Bottom: []string{"1", "", `"x"`, "x"}[rapid.IntRange(0, 3).Draw(rt, "bottom")], Trail: []string{"", "", "junk", "]"}[rapid.IntRange(0, 3).Draw(rt, "trail")]}.Build()
 	case 0, 1:
 		return gen.NestSpec{Depth: rapid.IntRange(8, 90).Draw(rt, "depth"), Pattern: gen.NestPatterns[rapid.IntRange(0, len(gen.NestPatterns)-1).Draw(rt, "pat")],
 			Close: rapid.IntRange(0, 90).Draw(rt, "close"), Bottom: []string{"", "1", `"x"`, "]"}[rapid.IntRange(0, 3).Draw(rt, "bottom")]}.Build()
@@ -71,6 +87,9 @@ func TestC14(t *testing.T) {
 			repeat := func(rt *rapid.T, doc []byte) int64 {
 				if len(doc) > 64 {
 					return 1
+				}
+				if len(doc) <= 16 && rapid.IntRange(0, 40).Draw(rt, "manycalls?") == 0 {
+					return 66000 // beyond any 16-bit per-Buffer call counter
 				}
 				return []int64{1, 1, 1, 1, 1, 3, 40, 2600, 12000}[rapid.IntRange(0, 8).Draw(rt, "repeat")]
 			}
